@@ -181,6 +181,9 @@ def choices(r, bud, env):
         out.append(["req", "pausing"])
     if bud["resume"] > 0 and (wf == "paused" or (env.get("resume_early") and wf == "pausing")):
         out.append(["req", "resuming"])
+    elif env.get("delayed") == "pending" and wf == "paused" and not r.acts_dormant():
+        # an inquiry paused the workflow and has been answered: the provider resumes it (as StackStorm does)
+        out.append(["req", "resuming"])
     if bud["cancel"] > 0 and wf in ("running", "pausing", "paused", "resuming"):
         out.append(["req", "canceling"])
     if bud["persist"] > 0:
